@@ -2467,10 +2467,53 @@ fn core_word_join(xs: &mut State) -> Xresult {
     xs.push_data(Cell::from(s))
 }
 
+// a total order for `sort`: the order of cells leaves values of different types (and NaN)
+// unordered, which the library sort rejects with a panic on longer inputs. Values are
+// grouped by type first; within a type the usual order applies.
+fn sort_order(a: &Cell, b: &Cell) -> std::cmp::Ordering {
+    fn rank(c: &Cell) -> u8 {
+        match c.value() {
+            Cell::Nil => 0,
+            Cell::Flag(_) => 1,
+            Cell::Int(_) => 2,
+            Cell::Real(_) => 3,
+            Cell::Str(_) => 4,
+            Cell::Bitstr(_) => 5,
+            Cell::Vector(_) => 6,
+            Cell::Map(_) => 7,
+            Cell::Fun(_) => 8,
+            _ => 9,
+        }
+    }
+    rank(a).cmp(&rank(b)).then_with(|| match (a.value(), b.value()) {
+        (Cell::Real(x), Cell::Real(y)) => x.total_cmp(y),
+        (Cell::Vector(x), Cell::Vector(y)) => {
+            for (p, q) in x.iter().zip(y.iter()) {
+                let o = sort_order(p, q);
+                if o != std::cmp::Ordering::Equal {
+                    return o;
+                }
+            }
+            x.len().cmp(&y.len())
+        }
+        (Cell::Map(x), Cell::Map(y)) => {
+            for ((pk, pv), (qk, qv)) in x.iter().zip(y.iter()) {
+                let o = sort_order(pk, qk).then_with(|| sort_order(pv, qv));
+                if o != std::cmp::Ordering::Equal {
+                    return o;
+                }
+            }
+            x.size().cmp(&y.size())
+        }
+        (Cell::AnyRc(_), _) | (_, Cell::AnyRc(_)) => std::cmp::Ordering::Equal,
+        _ => a.cmp(b),
+    })
+}
+
 fn core_word_sort(xs: &mut State) -> Xresult {
     let v = xs.pop_data()?.to_vec()?;
     let mut tmp: Vec<Cell> = v.iter().cloned().collect();
-    tmp.sort();
+    tmp.sort_by(sort_order);
     let sorted = Xvec::from_iter(tmp.into_iter());
     xs.push_data(Cell::from(sorted))
 }
